@@ -57,7 +57,7 @@ def parse (args : List Sexp) : Option (Option Opts × List (List Op) × List Nat
 def accepts (s : St) : Nat → Nat
   | 0 => 0
   | n + 1 => match addEnd s .back 0 with
-    | (s', "ok", _) => 1 + accepts s' n
+    | (s', .ok, _) => 1 + accepts s' n
     | _ => 0
 
 def handle (s : Sexp) : String :=
